@@ -167,22 +167,37 @@ func TestVerifC16Handoff(t *testing.T) {
 		_ = w.WriteMsg(resp)
 	})).String()
 
+	// Fixed free ports, never port 0: dnsproxy sets SO_REUSEPORT.
 	lo := net.IP{127, 0, 0, 1}
 	s, _ := createTestTLS(t, &TLSConfig{
-		TLSListenAddrs: []*net.TCPAddr{{IP: lo}},
+		TLSListenAddrs: []*net.TCPAddr{{IP: lo, Port: verifkit.FreePort()}},
 		ServerName:     tlsServerName,
 	})
-	s.conf.UDPListenAddrs = []*net.UDPAddr{{IP: lo}}
-	s.conf.TCPListenAddrs = []*net.TCPAddr{{IP: lo}}
-	s.conf.UpstreamDNS = []string{ups}
-	if err := s.Prepare(&s.conf); err != nil {
-		rep.Inconcl("cannot prepare the server: " + err.Error())
-
-		return
-	}
 	qlog := &c16QLog{byName: map[string][]c16LogEntry{}}
-	s.queryLog = qlog
-	startDeferStop(t, s)
+	for try := 0; ; try++ {
+		plain := verifkit.FreePort()
+		s.conf.TLSConf.TLSListenAddrs = []*net.TCPAddr{{IP: lo, Port: verifkit.FreePort()}}
+		s.conf.UDPListenAddrs = []*net.UDPAddr{{IP: lo, Port: plain}}
+		s.conf.TCPListenAddrs = []*net.TCPAddr{{IP: lo, Port: plain}}
+		s.conf.UpstreamDNS = []string{ups}
+		if err := s.Prepare(&s.conf); err != nil {
+			rep.Inconcl("cannot prepare the server: " + err.Error())
+
+			return
+		}
+		s.queryLog = qlog
+		err := s.Start()
+		if err == nil {
+			break
+		}
+		_ = s.Stop()
+		if try >= 5 || !strings.Contains(err.Error(), "address already in use") {
+			rep.Inconcl("cannot start the server: " + err.Error())
+
+			return
+		}
+	}
+	t.Cleanup(func() { _ = s.Stop() })
 
 	doh := httptest.NewUnstartedServer(http.HandlerFunc(s.ServeHTTP))
 	doh.TLS = &tls.Config{Certificates: []tls.Certificate{*s.conf.TLSConf.Cert}}
@@ -241,12 +256,15 @@ func TestVerifC16Handoff(t *testing.T) {
 		w := map[string]any{"request": r, "query_log_record": es[0], "expected_client_id": r.Want,
 			"history": fmt.Sprintf("round %d; ids carried by earlier requests: %d distinct; reconfigurations so far: %d",
 				r.Round, len(idsSeen), rep.Events["reconfigurations"])}
+		hist := "without-reconfiguration"
+		if rep.Events["reconfigurations"] > 0 {
+			hist = "after-a-reconfiguration"
+		}
 		switch {
-		case r.Want == "" && idsSeen[got] && (r.Proto == "udp" || r.Proto == "tcp"):
-			rep.Violate("processing-stage:plain-request-got-earlier-clientid:"+r.Phase,
-				fmt.Sprintf("a plain %s request was attributed to ClientID %q, which an earlier request carried", r.Proto, got), w)
 		case r.Want == "" && idsSeen[got]:
-			rep.Violate("processing-stage:request-without-id-got-earlier-clientid:"+r.Proto+":"+r.Phase,
+			// One class whatever the protocol: the id of an earlier request
+			// reached a request that carries none.
+			rep.Violate("processing-stage:request-without-id-got-earlier-clientid:"+hist,
 				fmt.Sprintf("a %s request without ClientID was attributed to ClientID %q, which an earlier request carried", r.Proto, got), w)
 		case r.Want == "":
 			rep.Violate("processing-stage:request-without-id-attributed:"+r.Proto+":"+r.Phase,
